@@ -54,6 +54,7 @@ HDR = ("From OP Require Import gen.Consts gen.HxDispatch model.Base model.HX.\nR
 
 NTUS = [k / 4 for k in range(1, 41)]
 CS = [k / 20 for k in range(0, 21)]
+NEAR_ONE_CS = [0.999, 0.9993, 0.9996, 0.99985]
 SMALL_NTUS = [0.01, 0.02, 0.05, 0.1, 0.15, 0.2]          # corpus rows: D33 showed up at N = 0.01, c = 0.05
 EPS = Fraction(1, 10 ** 12)
 D34_MIN_NTU_PER_PASS = 2.9      # the both-mixed correlation has its maximum at NTU/pass >= 2.98 for every c
@@ -440,6 +441,11 @@ def sweep_suite(ctx):
             # corpus: small NTU (D33), equal ratio, zero ratio (D14)
             for c in (0.0, 0.05, 0.5, 1.0):
                 rows.append((arr, form, lab, c, 1, SMALL_NTUS))
+            # capacity ratios just below 1: the balanced-stream formulas take over at exactly c = 1 and nowhere else
+            if form == "text":
+                for P in passes:
+                    for c in NEAR_ONE_CS:
+                        rows.append((arr, form, lab, c, P, NTUS[1::4]))
     if ctx.thorough:
         fine = [k / 16 for k in range(1, 161)]
         for arr in HX:
